@@ -148,4 +148,23 @@ Definition spec_hypot3_special (x y z : fl) : option fl :=
   | _, _, _ => None
   end.
 
+(** * rint / lrint in the CURRENT rounding direction (7.12.9.4-5, F.10.6.4: "rounds according to the
+    current rounding direction"); md is the fegetround() class: 1 = FE_DOWNWARD, 2 = FE_UPWARD,
+    3 = FE_TOWARDZERO, anything else = FE_TONEAREST (ties to even) *)
+Definition mode_of_fe (md : Z) : mode :=
+  if md =? 1 then mode_DN else if md =? 2 then mode_UP else if md =? 3 then mode_ZR else mode_NE.
+Definition spec_rint_rm (md : Z) (x : fl) : fl := Bnearbyint (mode_of_fe md) x.
+Definition spec_lrint_rm (w md : Z) (x : fl) : option Z :=
+  match x with
+  | B754_nan | B754_infinity _ => None
+  | _ => let z := Btrunc (Bnearbyint (mode_of_fe md) x) in if in_s w z then Some z else None
+  end.
+
 End Fmt.
+
+(** * IEC 60559 5.5.1 sign-bit operations on the encoding: abs sets the sign bit to 0, copySign takes
+    it from the second operand, for EVERY operand (NaNs of either sign and any payload included);
+    isSignMinus / C signbit reads it.  [w] = width of the encoding, bit w-1 = sign. *)
+Definition spec_raw_fabs (w b : Z) : Z := b mod 2 ^ (w - 1).
+Definition spec_raw_copysign (w x y : Z) : Z := x mod 2 ^ (w - 1) + 2 ^ (w - 1) * (y / 2 ^ (w - 1)).
+Definition spec_raw_signbit (w b : Z) : bool := 2 ^ (w - 1) <=? b.
